@@ -23,6 +23,12 @@ for n in sys.argv[1:]:
         demo_without_change_passes=c.get("demo_without_change_passes"))
     meta["checks_run"] = "tools/seedtest.py run: git -C /repo apply patch.diff; ./check <id> --tier quick for every claimed property; git -C /repo checkout -- ."
     meta["caught_by"] = r["caught_by"]
+    meta["caught_with_failing_input"] = r.get("caught_with_failing_input")
+    meta["caught_tie_only_no_failing_input_found"] = r.get("caught_tie_only")
+    if os.path.exists(os.path.join(dst, "meta.json")):
+        old = json.load(open(os.path.join(dst, "meta.json")))
+        if "history" in old:
+            meta["history"] = old["history"]
     meta["verdict_lines"] = {k: v["violation"] for k, v in r["results"].items() if v["violation"]}
     json.dump(meta, open(os.path.join(dst, "meta.json"), "w"), indent=1)
     print(n, "kept; caught by", r["caught_by"])
